@@ -15,7 +15,7 @@ PROP = "C17"
 LEVEL = "fault_enumeration"
 BUDGET = {"quick": 170, "thorough": 1500}
 
-PSEUDO = re.compile(r"^<(if|else|while|native code)>|^<native code>#")
+PSEUDO = re.compile(r"^<")      # block scopes (<if>, <else>, <while>) and <native code>#... are not functions or methods
 KNOWN_ARITH = "C17-arith-overflow-panics"
 
 
